@@ -8,6 +8,10 @@ A *schedule* is the list of events of the Lean model (`Cache.Event`):
   ("st", i)              run i executes up to (and including) its next op
   ("ex", i)              the next op of run i raises instead (exception; finally/with still run)
   ("ki", i)              run i is killed (nothing runs any more, unflushed data are lost)
+  ("ed", i, text_id)     the model FILE that run i was started on is saved with text `text_id` (an editor saving while the
+                         run is under way).  Not an event of the Lean model: the model's run carries the text it READS, so
+                         the schedule is reduced (`reduce_edits`) to one without edits in which run i is spawned on the text
+                         its file holds when it executes `readText` (theorem `Props.C23.reads_once`: exactly one read, first op).
 The same schedule is executed by the Lean driver; both sides print the same canonical state.
 
 Robustness contract (strengthening after the seeded changes C24-1/C24-3): nothing the code under test does may
@@ -223,6 +227,8 @@ class _Proc:
         self.exc_type: Optional[str] = None
         self.exc_msg = ""
         self.uuids: List[str] = []
+        self.path: Optional[pathlib.Path] = None  # the model file of this run (one file per run: edits are per run)
+        self.read_ids: List[Any] = []  # text ids the model file held at each read_text of this run
         self.result: Any = None
         self.thread: Optional[threading.Thread] = None
         self.depth = 0
@@ -429,11 +435,22 @@ class World:
         return r
 
     # ---------------------------------------------------------------- runs
-    def model_path(self, text_id: int) -> pathlib.Path:
-        p = self.models / f"m{text_id}.py"
-        if not p.exists():
-            p.write_text(self.texts[text_id], encoding="utf-8")
-        return p
+    def model_path(self, pr: _Proc) -> pathlib.Path:
+        if pr.path is None:
+            pr.path = self.models / f"m{pr.text_id}.r{pr.idx}.py"
+            pr.path.write_text(self.texts[pr.text_id], encoding="utf-8")
+        return pr.path
+
+    def edit(self, i: int, text_id: int) -> None:
+        """An editor saves the model file of run i with another text (atomically: write aside + rename)."""
+        if i >= len(self.procs):
+            return
+        pr = self.procs[i]
+        path = self.model_path(pr)
+        tmp = path.with_name(path.name + ".save")
+        with open(tmp, "w", encoding="utf-8") as f:
+            f.write(self.texts[text_id])
+        os.replace(tmp, path)
 
     def _target(self, pr: _Proc) -> None:
         from aas_core_codegen import run
@@ -444,13 +461,15 @@ class World:
         exc: Tuple[Optional[str], str] = (None, "")
         hung_here = False
         try:
-            res = run.load_model(self.model_path(pr.text_id), cache_model=pr.flag)
+            res = run.load_model(self.model_path(pr), cache_model=pr.flag)
             if res[1] is None:
                 self.gate(pr, "return")
                 text = res[0][1].text
                 outcome = f"ok:{self.text_to_id.get(text, '?')}"
             else:
-                outcome = f"err:{pr.text_id}"
+                # the error report of the text that was read (the file may have been saved with another text before)
+                rid = pr.read_ids[0] if pr.read_ids and pr.read_ids[0] != "?" else pr.text_id
+                outcome = f"err:{rid}"
             result = res
         except Killed:
             outcome = "killed"
@@ -476,7 +495,7 @@ class World:
     def spawn(self, text_id: int, flag: bool) -> None:
         pr = _Proc(self, len(self.procs), text_id, flag)
         self.procs.append(pr)
-        self.model_path(text_id)
+        self.model_path(pr)
         pr.thread = threading.Thread(target=self._target, args=(pr,), daemon=True)
         pr.thread.start()
         self._wait(pr)
@@ -504,6 +523,9 @@ class World:
     def event(self, ev: Event, mid_dump: bool = False) -> None:
         if ev[0] == "sp":
             self.spawn(ev[1], bool(ev[2]))
+            return
+        if ev[0] == "ed":
+            self.edit(ev[1], ev[2])
             return
         i = ev[1]
         if i >= len(self.procs):
@@ -637,9 +659,11 @@ def _w_read_text(self: pathlib.Path, *a: Any, **kw: Any) -> Any:
     def real() -> Any:
         pr.depth += 1
         try:
-            return _ORIG["Path.read_text"](self, *a, **kw)
+            text = _ORIG["Path.read_text"](self, *a, **kw)
         finally:
             pr.depth -= 1
+        pr.read_ids.append(pr.world.text_to_id.get(text, "?"))
+        return text
 
     return pr.world.op(pr, "readText", real)
 
@@ -791,9 +815,39 @@ def enc_event(ev: Event) -> str:
     return f"{ev[0]}.{ev[1]}"
 
 
+def reduce_edits(sched: Sequence[Event]) -> List[Event]:
+    """The schedule without its ("ed", i, t) events, for the Lean model: run i is spawned on the text its model file holds
+    when it executes its first op (`readText`: `Props.C23.reads_once` — the skeleton reads the file exactly once, first);
+    an edit after that moment changes nothing for the run (the model carries the text that was read)."""
+    if not any(e[0] == "ed" for e in sched):
+        return list(sched)
+    text: Dict[int, int] = {}  # run -> text its file holds now
+    started: Dict[int, bool] = {}  # run -> has executed (or failed at) its first op
+    n = 0
+    for e in sched:
+        if e[0] == "sp":
+            text[n] = e[1]
+            started[n] = False
+            n += 1
+        elif e[0] == "ed":
+            if e[1] in text and not started[e[1]]:
+                text[e[1]] = e[2]
+        elif e[1] in started:
+            started[e[1]] = True
+    out: List[Event] = []
+    n = 0
+    for e in sched:
+        if e[0] == "sp":
+            out.append(("sp", text[n], e[2]))
+            n += 1
+        elif e[0] != "ed":
+            out.append(e)
+    return out
+
+
 def model_request(invalid: Sequence[int], sched: Sequence[Event]) -> str:
     inv = ",".join(str(x) for x in sorted(invalid)) if invalid else "-"
-    return " ".join(["run", inv] + [enc_event(e) for e in sched])
+    return " ".join(["run", inv] + [enc_event(e) for e in reduce_edits(sched)])
 
 
 def parse_model_state(line: str) -> Dict[str, Any]:
